@@ -3,6 +3,7 @@ package main
 import (
 	"bytes"
 	"fmt"
+	"strings"
 	"time"
 
 	"github.com/intuitivelabs/sipsp"
@@ -27,7 +28,7 @@ const flTail = "Call-ID: x\r\nCSeq: 7 OPTIONS\r\n\r\n"
 // evalC08 checks one generated first line (expectations known by construction).
 func evalC08(f flCase, raw []byte) (vs []*Violation) {
 	var line []byte
-	if f.Kind == "nearmiss" {
+	if f.Kind == "nearmiss" || f.Kind == "not-a-reply" {
 		line = raw
 	} else {
 		line = f.line()
@@ -92,6 +93,11 @@ func c08Parse(f *flCase, buf []byte, msg *sipsp.PSIPMsg, flp **sipsp.PFLine, np 
 
 func c08Oracle(f flCase, line, buf []byte, fl *sipsp.PFLine, msg *sipsp.PSIPMsg, n int, e sipsp.ErrorHdr, add func(rule, class, detail string), get func(p sipsp.PField) string) {
 	switch f.Kind {
+	case "not-a-reply":
+		if e == 0 && (!fl.Request() || fl.Status != 0 || !fl.StatusCode.Empty()) {
+			add("only-sip-version-lines-are-replies", f.A, fmt.Sprintf("reported as a reply: version=%q code=%q status=%d", get(fl.Version), get(fl.StatusCode), fl.Status))
+		}
+		return
 	case "nearmiss":
 		if e == 0 {
 			add("grammar-violations-rejected", f.A, fmt.Sprintf("accepted: method=%q uri=%q ver=%q code=%q reason=%q", get(fl.Method), get(fl.URI), get(fl.Version), get(fl.StatusCode), get(fl.Reason)))
@@ -256,6 +262,31 @@ func checkC08(r *Run) {
 				r.St.Outcomes["nearmiss"]++
 				for _, v := range vs {
 					r.Col.add(v)
+				}
+			}
+		}
+	}
+	// every single-byte substitution in the "SIP/2.0 " prefix of a status line (all 256 values): unless the result is
+	// just a letter-case variant, the line is no longer a status line and must not be reported as a reply
+	for _, base := range []string{"SIP/2.0 200 OK\r\n", "sip/2.0 486 Busy Here\r\n"} {
+		for p := 0; p < 8; p++ {
+			for x := 0; x < 256; x++ {
+				b := []byte(base)
+				if b[p] == byte(x) {
+					continue
+				}
+				b[p] = byte(x)
+				if strings.EqualFold(string(b[:8]), "SIP/2.0 ") {
+					continue
+				}
+				for _, via := range []bool{false, true} {
+					vs := evalC08(flCase{Kind: "not-a-reply", A: "prefix-substitution", ViaMsg: via}, b)
+					r.St.Evals++
+					r.St.Transitions++
+					r.St.Outcomes["prefix-substitution"]++
+					for _, v := range vs {
+						r.Col.add(v)
+					}
 				}
 			}
 		}
